@@ -300,11 +300,14 @@ func (c *crashExec) recover(s *snapshot) {
 	}
 	results := make([]result, len(plan.Keys))
 	done := false
+	budget := false
 	g, res := sim2.Run(func(g *Gen) {
 		cl := g.NewConn()
 		for k, key := range plan.Keys {
 			r := cl.Do(cmdGet(string(key)))
 			switch {
+			case r.Budget:
+				budget = true
 			case r.Malformed != "" || r.Closed || r.NoReply:
 				results[k].err = "protocol: " + r.String()
 			case r.Status != "END":
@@ -319,6 +322,10 @@ func (c *crashExec) recover(s *snapshot) {
 	})
 	x.out.Steps += sim2.Steps
 	x.out.SimNS += sim2.SimNS
+	if budget {
+		x.out.Inconclusive = "reply-step-budget"
+		return
+	}
 	desc := fmt.Sprintf("crash point: fs event #%d (%s, torn=%d) during op #%d", s.Seq, s.Kind, s.Torn, s.OpID)
 	refused := g.OpenErr != nil || res.Status == simrt.StatusFatal
 	// what is durable, per bucket
